@@ -11,10 +11,10 @@ from .srvfam import BODIES, METAS, STATUSES, ConnFamily
 ID = "C01"
 READY = True
 LEAN_TARGETS = ["NauyacaVerif.Props.C01"]
-THEOREMS = ['NauyacaVerif.C01.render_wf', 'NauyacaVerif.C01.trace_shape', 'NauyacaVerif.C01.nothing_after_close', 'NauyacaVerif.C01.trace_progress', 'NauyacaVerif.C01.line_decides', 'NauyacaVerif.C01.lost_silent', 'NauyacaVerif.C01.fixedMetas_clean', 'NauyacaVerif.C01.pump_trace_shape', 'NauyacaVerif.C01.pump_silent_before_handshake', 'NauyacaVerif.C01.maxMeta_tie', 'NauyacaVerif.C01.maxRequest_tie']
-EXTRACT = ["maxMeta", "maxRequest", "serverWriters"]
+THEOREMS = ['NauyacaVerif.C01.render_wf', 'NauyacaVerif.C01.trace_shape', 'NauyacaVerif.C01.nothing_after_close', 'NauyacaVerif.C01.trace_progress', 'NauyacaVerif.C01.line_decides', 'NauyacaVerif.C01.lost_silent', 'NauyacaVerif.C01.fixedMetas_clean', 'NauyacaVerif.C01.pump_trace_shape', 'NauyacaVerif.C01.pump_silent_before_handshake', 'NauyacaVerif.C01.maxMeta_tie', 'NauyacaVerif.C01.writeChunk_tie', 'NauyacaVerif.C01.flow_pieces', 'NauyacaVerif.C01.flow_writes_prefix', 'NauyacaVerif.C01.flow_closed_complete', 'NauyacaVerif.C01.flow_quiet', 'NauyacaVerif.C01.flow_resume_finishes', 'NauyacaVerif.C01.maxRequest_tie']
+EXTRACT = ["maxMeta", "maxRequest", "serverWriters", "writeChunk"]
 EXTRACT_EXPECT = {"serverWriters": ["_pump_response"]}  # every transport.write of the server protocol sits in one function
-LEVEL_TEXT = "Proved for every configuration and EVERY event list (all orderings of reads, timer, middleware/handler/upload completions of any outcome, disconnect): the output trace is empty or one well-formed response (two digits 10-69, space, meta without CR/LF <= 1024 bytes, CRLF, body only with 2x; for every status/meta/body incl. lone surrogates) followed by close, nothing after close, nothing after a disconnect, a decided request with no pending task IS answered, a complete line / >1024 bytes always decides (for every segmentation); lifted to the PyOpenSSL pump model. The correspondence compares the real GeminiServerProtocol byte-for-byte and event-by-event (when the response is written) with the model, and the real pump over memory-BIO TLS. Partial: the stdlib TLS backend is asyncio's transport (identity transport in the model); texts of exception-derived metas are only checked for well-formedness."
+LEVEL_TEXT = "Proved for every configuration and EVERY event list (all orderings of reads, timer, middleware/handler/upload completions of any outcome, disconnect): the output trace is empty or one well-formed response (two digits 10-69, space, meta without CR/LF <= 1024 bytes, CRLF, body only with 2x; for every status/meta/body incl. lone surrogates) followed by close, nothing after close, nothing after a disconnect, a decided request with no pending task IS answered, a complete line / >1024 bytes always decides (for every segmentation); lifted to the PyOpenSSL pump model; and for the write pump under flow control (M-Flow: responses are handed to the transport in pieces, pause/resume at any point): writes are always an in-order prefix of the pieces, close only after all of them, nothing while paused. The correspondence compares the real GeminiServerProtocol byte-for-byte and event-by-event (when the response is written) with the model, and the real pump over memory-BIO TLS. Partial: the stdlib TLS backend is asyncio's transport (identity transport in the model); texts of exception-derived metas are only checked for well-formedness."
 LEVEL_NOTE = "Trusted: Lean kernel (axioms propext, Classical.choice, Quot.sound only); the hand-written model Srv.step/Srv.pumpStep is tied to /repo by extraction (constants, 'every transport.write sits in _send_response') and by the correspondence run of every check (fake transport with asyncio's write-after-close semantics, virtual-clock loop, scripted handlers; real PyOpenSSL pump over memory BIOs); asyncio's transport/timer contract, OpenSSL's record layer and Python exception texts are assumed, see assumptions."
 TECHNIQUE = 'Lean 4 proof (invariant induction over all event lists of an executable connection state machine) + differential correspondence with the real asyncio protocol objects under a virtual clock'
 ASSUMPTIONS = [
@@ -178,4 +178,73 @@ class Content(Family):
         return f"{what}|{case['path'][:8]}|listing{int(case['listing'])}|{case['routing']}"
 
 
-FAMILIES = [Events(), Render(), Pump(), Content()]
+class Flow(Family):
+    """the response write pump under a transport that pauses and resumes writing (what asyncio's TLS transport does
+    to a large response and a slow reader): pieces in order, nothing while paused, close only after the last piece"""
+
+    name = "flow"
+    quick_n = 600
+    thorough_n = 12000
+
+    def gen(self, rng: random.Random, n: int):
+        sizes = [0, 1, 65535, 65536, 65537, 131072, 131073, 200000, 262144, 400000]
+        fixed = []
+        for size in sizes:
+            for evs in ([["s"]], [["lim", 0], ["s"], ["rw"]], [["lim", 1], ["s"], ["lim", 0], ["rw"], ["rw"]], [["lim", 0], ["s"], ["l"], ["rw"]],
+                        [["lim", 2], ["s"], ["rw"], ["rw"]], [["s"], ["pw"], ["rw"]], [["pw"], ["s"], ["rw"]], [["lim", 0], ["s"], ["lim", 0], ["rw"], ["lim", 0], ["rw"], ["rw"], ["rw"], ["rw"], ["rw"], ["rw"]]):
+                fixed.append({"resp": [20, "application/octet-stream", ["z", size]], "evs": evs})
+        for c in self.share(fixed):
+            yield c
+        for _ in range(n):
+            size = rng.choice(sizes + [rng.randint(0, 500000)])
+            st = rng.choice([20, 20, 20, 51, 30])
+            evs = []
+            if rng.random() < 0.7:
+                evs.append(["lim", rng.randint(0, 4)])
+            if rng.random() < 0.1:
+                evs.append(["pw"])
+            evs.append(["s"])
+            for _ in range(rng.randint(0, 8)):
+                r = rng.random()
+                evs.append(["rw"] if r < 0.5 else ["lim", rng.randint(0, 3)] if r < 0.8 else ["pw"] if r < 0.9 else ["l"] if r < 0.95 else ["s"])
+            yield {"resp": [st, "application/octet-stream", ["z", size]], "evs": evs}
+
+    def impl(self, case):
+        from .srvfam import get_loop
+
+        loop = get_loop()
+        return loop.run_until_complete(sim.run_flow(loop, case))
+
+    def model(self, case):
+        m = {"s": "s", "rw": "r", "pw": "p", "l": "l"}
+        return "flow " + sim.enc_resp(case["resp"]) + " " + " ".join(m[e[0]] if e[0] != "lim" else f"k:{e[1]}" for e in case["evs"])
+
+    def expect(self, case, out):
+        assert out.startswith("ok "), out
+        body = out[3:].split(" ")[0]
+        return {"acts": [x for x in body.split(",") if x]}
+
+    def same(self, exp, obs):
+        return exp["acts"] == obs["acts"] and not obs["exc"] and obs["dropped"] == 0
+
+    def oracle(self, case, obs):
+        st, meta, body = case["resp"]
+        want = (f"{st} {meta}\r\n".encode() + (b"Z" * body[1] if 20 <= st <= 29 else b"")).hex()
+        raw = obs["raw"]
+        if not want.startswith(raw):
+            return ("flow-not-prefix", f"what was written is not a prefix of the response ({len(raw) // 2} bytes written)")
+        acts = obs["acts"]
+        if "close" in acts:
+            if acts[-1] != "close" or acts.count("close") != 1:
+                return ("bytes-after-close", f"trace {acts}")
+            if raw != want:
+                return ("half-written", f"connection closed after {len(raw) // 2} of {len(want) // 2} response bytes")
+        if obs["dropped"]:
+            return ("bytes-after-close", f"{obs['dropped']} writes after the close")
+        return None
+
+    def key(self, case, obs):
+        return f"pieces{len([a for a in obs['acts'] if a != 'close'])}|closed{int('close' in obs['acts'])}|evs{min(len(case['evs']), 6)}"
+
+
+FAMILIES = [Events(), Render(), Pump(), Content(), Flow()]
